@@ -294,6 +294,18 @@ Definition check_spec_strict (spec : arg) (obs : arg) : arg :=
    to it); a reader may refuse it, but whatever it reports has to be true of the key that is there *)
 Definition check_spec (spec : arg) (obs : arg) : arg :=
   match spec with
+  | AL [AZ 7%Z; AL meta] =>
+      (* labels only (an OpenSSH certificate: the tool does not describe the certified key, but the type
+         label and the comment it shows have to be the stored ones) *)
+      match obs with
+      | AL [AZ 0%Z; ia] =>
+          match first_some (check_meta (all_attrs (info_of_arg ia))) meta with
+          | Some e => AB (bytes_of_string e)
+          | None => AL []
+          end
+      | AL [AZ 2%Z] => AS "panic while describing a key"
+      | _ => AS "well-formed key is not described"
+      end
   | AL [AB _; AL forbidden; AZ must_say] =>
       (* a private key under an algorithm the tool does not decode: no key facts are asked for.  The
          property's "recognised private key": the CONTAINER is recognised (PKCS#8 PrivateKeyInfo, SEC1) -
